@@ -25,7 +25,7 @@ LEVEL_NOTE = ('Rows with tied chi^2 may come in any order; resolved-model remova
 RULE = ("cases: (mode, load variant, n_models, package permutation); executions: Fitter.fit on 7 sources built to produce ties/1e30/inf, one evaluation per row; "
         "non-trivial = distinct (case, source) whose result has >= 2 rows")
 ASSUMPTIONS = ["finite value alphabets", "ties may be ordered either way"]
-REQUIRED_CLASSES = ['tied-chi2-duplicates', 'chi2>=1e30', 'tied-at-1e30', 'chi2==2e30', 'resolved-removal-moves-best-distance', 'n_models==1', 'n_models==8', 'permuted-package',
+REQUIRED_CLASSES = ['grid-of-hundreds-of-models', 'tied-chi2-duplicates', 'chi2>=1e30', 'tied-at-1e30', 'chi2==2e30', 'resolved-removal-moves-best-distance', 'n_models==1', 'n_models==8', 'permuted-package',
                     'mode-2d', 'mode-3d', 'float32-path', 'dead-model', 'near-tied-chi2']
 TIMEOUT = {'quick': 300, 'thorough': 1200}
 VARIANTS = [('v1', False), ('v2', True), ('v2', False)]
@@ -63,6 +63,11 @@ def setup(tier, seed):
                     if tier == 'quick' and n == 4 and iv != 0 and (sum(i * x for i, x in enumerate(p)) + seed) % 3:
                         continue
                     out.append({'mode': mode, 'variant': iv, 'n': n, 'perm': list(p)})
+    # scale: a few hundred models (row and rank indices beyond 127 / 255), package order scrambled
+    nbig = 300 if tier == 'quick' else 1000
+    for mode in ('2d', '3d'):
+        for iv in ((0, 1) if tier == 'quick' else (0, 1, 2)):
+            out.append({'mode': mode, 'variant': iv, 'n': nbig, 'perm': [(i * 7919 + 5) % nbig for i in range(nbig)]})
     return {'tier': tier, 'seed': seed, 'cases': out}
 
 
@@ -97,7 +102,7 @@ def run_case(ctx, case, rec, d):
     mode, n = case['mode'], case['n']
     fmt, memmap = VARIANTS[case['variant']]
     perm = case['perm']
-    phys_names = ['p%d_%s' % (i, 'kcxaqfzb'[i]) for i in range(n)]
+    phys_names = ['p%d_%s' % (i, 'kcxaqfzb'[i % 8]) for i in range(n)]
     names = [phys_names[i] for i in perm]                 # package order
     k = fc.law_k('power', [fc.BAND_WAV[b] for b in BANDS])
     avlo, avhi = (0.0, 10.0) if case['variant'] != 2 else (2.5, 2.5)        # one load variant runs with A_V pinned to a non-zero value
@@ -106,6 +111,8 @@ def run_case(ctx, case, rec, d):
         rec.cls('n_models==1')
     if n == 8:
         rec.cls('n_models==8')
+    if n > 256:
+        rec.cls('grid-of-hundreds-of-models')
     if list(perm) != sorted(perm):
         rec.cls('permuted-package')
     if mode == '2d':
